@@ -30,7 +30,7 @@ ASSUMPTIONS = ['operand-pair coverage is input generation; the chain invariant a
 REAL = ['smartquery.* (operators, compound assignment, numeric builtins)', 'decimal']
 STUB = ['host (supplies numeric variables of every Python numeric type)']
 REACH_PROBES = ('host_int_operand', 'long_int_operand', 'float_operand', 'big_exponent_operand', 'mul_on_non_number_refused',
-                'compound_mul', 'compound_index_mul', 'pow', 'numeric_builtin', 'arithmetic_error', 'chain5')
+                'compound_mul', 'compound_index_mul', 'pow', 'numeric_builtin', 'arithmetic_error', 'chain5', 'nested_eval_product', 'builtin_name_rebound_by_program')
 
 VARS = ['i', 'j', 'k', 'k2', 'm47', 'm47b', 'b10', 'big', 'huge', 'f', 'g', 't', 'd', 'e', 'm', 'w', 'hs', 'he', 'hs2']
 SMALL_EXPONENTS = ['i', 'j', 't', 'w', 'd']     # exponents are kept small so that a tree computing ** natively still terminates
@@ -75,7 +75,30 @@ def _operand(r):
 
 
 def _gen_op(r):
-    k = weighted(r, [('bin', 7), ('short', 5), ('setitemop', 3), ('neg', 1), ('builtin', 5), ('chain', 1.5)])
+    k = weighted(r, [('bin', 7), ('short', 5), ('setitemop', 3), ('neg', 1), ('builtin', 5), ('chain', 1.5), ('nested', 1), ('rebound', 0.8)])
+    if k == 'nested':
+        # inside a reduce / map / sum the host function nest(a, b) evaluates "p * q / 3" on the SAME parser (an
+        # evaluation of its own, in the middle of this one): that product obeys the same bound
+        a, b = ['name', r.choice(['k', 'k2', 'm', 'd', 'big'])], ['name', r.choice(['k', 'm47', 'd', 'm'])]
+        form = r.choice(['reduce', 'map', 'sum', 'plain'])
+        if form == 'reduce':
+            e = ['call', 'reduce', [['list', [a, b, a]], ['lambda', ['p', 'q'], ['call', 'nest', [['name', 'p'], ['name', 'q']], 'plain']]], 'plain']
+        elif form == 'map':
+            e = ['call', 'map', [['list', [a, b]], ['lambda', ['v'], ['call', 'nest', [['name', 'v'], b], 'plain']]], 'plain']
+        elif form == 'sum':
+            e = ['call', 'sum', [['list', [['call', 'nest', [a, b], 'plain'], ['num', '1']]]], 'plain']
+        else:
+            e = ['call', 'nest', [a, b], 'plain']
+        return {'kind': 'nested', 'op': form, 'prog': ['assign', 'r2', e]}
+    if k == 'rebound':
+        # the program binds a numeric builtin's name to a lambda of its own (it returns a host int as it is); products and
+        # powers of what that lambda returns are decimal arithmetic like any other
+        f = r.choice(['abs', 'int', 'round', 'floor', 'ceil', 'float'])
+        hv = r.choice(['k', 'k2', 'i', 'hs', 'he', 'm47', 's'])
+        op = r.choice(['*', '**', '*'])
+        rhs = ['call', f, [['num', '2']], 'plain'] if op == '*' else ['num', '2']
+        prog = ['block', [['assign', f, ['lambda', ['v'], ['name', hv]]], ['assign', 'r', ['bin', op, ['call', f, [['num', '1']], 'plain'], rhs]]]]
+        return {'kind': 'rebound', 'op': op, 'prog': prog, 'builtin': f}
     if k == 'bin':
         op = r.choice(['+', '-', '*', '/', '**', '*', '**'])
         a = _operand(r)
@@ -165,6 +188,18 @@ def execute(case, ctx):
     parser = boot.fresh_parser()
     judged = 0
     interesting = False
+    nested_log = []
+
+    def nest(a, b):
+        with monitors.suspended():
+            try:
+                v = parser.eval('p * q / 3', {'p': a, 'q': b}, max_ops_evaluated=50)
+            except Exception:
+                return 0
+        nested_log.append((a, b, v))
+        return v
+    nest._sim_kind = 'host:nest'
+    names['nest'] = nest
     for step, op in enumerate(case['ops']):
         ctx.step = step
         prog = op['prog']
@@ -210,6 +245,27 @@ def execute(case, ctx):
             elif isinstance(o, Decimal) and o.is_finite() and abs(o.adjusted()) > 1000:
                 ctx.probe('big_exponent_operand')
                 interesting = True
+        for (a_, b_, v_) in nested_log:
+            ctx.probe('nested_eval_product')
+            ctx.fault('reentry')
+            if _is_num(v_) and not isinstance(v_, bool) and _is_num(a_) and _is_num(b_) and not (isinstance(v_, Decimal) and not v_.is_finite()):
+                widest = max(hooks.d_arg(a_), hooks.d_arg(b_))
+                if hooks.d_res(v_) > max(28, widest + 1):
+                    ctx.report('number_blowup', '%s: the nested evaluation of p * q / 3 (host function called from inside this one) returned %d significant digits; '
+                               'its widest operand has %d' % (what, hooks.d_res(v_), widest), {'kind': 'number_blowup', 'site': 'nested_eval', 'cause': 'operator'})
+        del nested_log[:]
+        if kind == 'rebound':
+            res = names.get('r')
+            names.pop(op.get('builtin'), None)        # the host takes the program's binding away again
+            ctx.probe('builtin_name_rebound_by_program')
+            if rout.kind == 'value' and not isinstance(res, Decimal):
+                ctx.report('mul_pow_not_decimal', '%s: %s returned %s %s, not a Decimal' % (what, op['op'], type(res).__name__, _safe_repr(res)),
+                           {'kind': 'mul_pow_not_decimal', 'form': 'rebound', 'op': op['op']})
+            judged += 1
+            continue
+        if kind == 'nested':
+            judged += 1
+            continue
         if rout.kind != 'value':
             ctx.probe('arithmetic_error')
             if kind in ('bin', 'short', 'setitemop') and op['op'] in ('*', '*=', '**', '**=') and operands and not all(_is_num(o) for o in operands):
